@@ -120,7 +120,7 @@ def plan(tier: str) -> dict:
                 cases.append({"worker": worker, "case": {"kind": "h2-rare", "items": [item], "pos": pos}})
     return {
         "runs": 12000 if tier == "quick" else 600000,
-        "budget": 100 if tier == "quick" else 2400,
+        "budget": 100 if tier == "quick" else 900,
         "cases": cases,
         "chunk": 40,
         "rule": "Four input families, each with tape-drawn segmentation and inter-segment delays on both workers: (a) random "
